@@ -74,7 +74,7 @@ def gen_problem(r, max_cells=200, with_zeros=None, nmeas=None):
     return {'dom': dom, 'meas': meas, 'zeros': zeros, 'N': sum(table.values()), 'table': table}
 
 
-def gen_tree_problem(r, kill_value=False):
+def gen_tree_problem(r, kill_value=False, scatter=False):
     """pairwise identity measurements along a random tree over 4-5 shuffled attributes (the sorted clique order is then usually not a
     running-intersection order); with kill_value, structural zeros that rule out one value of a separator attribute completely"""
     k = r.choice([4, 5])
@@ -116,6 +116,22 @@ def gen_tree_problem(r, kill_value=False):
         if sum(table.values()) == 0:
             ok = [x for x in table if x[attrs.index(a)] != v]
             table[ok[0]] = N
+    if scatter:
+        # a few impossible cells on one or two measured pairs (any position in the tree: leaf or inner clique)
+        for e in r.sample(edges, min(len(edges), r.randint(1, 2))):
+            zc = tuple(e) if r.random() < 0.5 else tuple(reversed(e))
+            allc = list(itertools.product(*[range(sizes[a]) for a in zc]))
+            zeros[zc] = r.sample(allc, r.randint(1, max(1, len(allc) // 2)))
+        for x in list(table):
+            if any(tuple(x[attrs.index(a)] for a in zc) in zs for zc, zs in zeros.items()):
+                table[x] = 0
+        if sum(table.values()) == 0:
+            ok = [x for x in table if all(tuple(x[attrs.index(a)] for a in zc) not in zs for zc, zs in zeros.items())]
+            if ok:
+                table[ok[0]] = N
+            else:
+                zeros = {}
+                table[cells[0]] = N
     meas = []
     for proj in edges:
         p = math.prod(sizes[a] for a in proj)
